@@ -259,7 +259,7 @@ def main(run):
                 run.sample({"document": base["doc_text"][:300], "baseline": base["options"], "variant": c["options"], "vectors": len(base["vectors"])}, limit=4)
     run.extra["timing"] = fac.timing
     fac.cleanup()
-    return run.finish(floor=FLOOR if run.tier == "quick" else {k: v * 10 for k, v in FLOOR.items()})
+    return run.finish(floor=FLOOR if run.tier == "quick" else {k: (v * 10 if k != "dim:strict-extern-enum" else v) for k, v in FLOOR.items()})     # (four fixed groups)
 
 
 def replay(run, rec):
